@@ -415,6 +415,38 @@ theorem run_success_iff_interface (mk : Marks) (w : List Client)
         cases hc2
 
 
+/-- **The interleaving of concurrently running batches is irrelevant** (`--max-servers` > 1).
+Whatever order the `setOutcome` calls of the spawned batches reach `testResults` in (any
+permutation `ws` of them), the map `report` looks at is the outcome map of the same assignment —
+hence the same verdict, totals and names (`report_of_perm`).  The model records batch after batch;
+this is why that loses nothing. -/
+theorem interleaving_irrelevant (mk : Marks) (w : List Client)
+    (hnamed : ∀ s ∈ allScripts w, s.names.length = s.cases.length)
+    (hd : (allNames w).Nodup)
+    (hex : ∀ n ∈ allNames w, (mk.failing n && mk.flaky n) = false)
+    (ws : List (String × ServerRunner.Class)) (hp : ws.Perm ((sched w).1.flatMap writesOf)) :
+    (merged mk (applyWrites mk [] ws) (resultsOf mk (sched w).1).sb).Perm (finalMap (assignment mk w)) := by
+  refine List.Perm.trans ?_ (merged_perm mk w hnamed hd hex)
+  obtain ⟨t, ht, _, _⟩ := sched_prefix w
+  have hdl : ((sched w).1.flatMap batchNames).Nodup := by
+    have : ((sched w).1.flatMap batchNames ++ t.flatMap batchNames).Nodup := by
+      rw [← List.flatMap_append, ht]; exact hd
+    exact (List.nodup_append.1 this).1
+  have hwn : (((sched w).1.flatMap writesOf).map (·.1)).Nodup :=
+    ((flat_writes_keys_perm _).nodup_iff).2 hdl
+  have hsb : (mkeys (resultsOf mk (sched w).1).sb).Nodup := by
+    rw [resultsOf_sb]; exact applyNotes_nodup _ _ (by simp [mkeys])
+  have n1 : (mkeys (merged mk (applyWrites mk [] ws) (resultsOf mk (sched w).1).sb)).Nodup := by
+    rw [processSideband_eq]
+    exact mergeAll_nodup _ _ _ (applyWrites_nodup _ _ _ (by simp [mkeys]))
+  have n2 := mergedOf_nodup mk (sched w).1
+  rw [List.perm_ext_iff_of_nodup (nodup_of_mkeys _ n1) (nodup_of_mkeys _ n2)]
+  rintro ⟨n, o⟩
+  rw [mem_iff_get? _ n1, mem_iff_get? _ n2]
+  unfold mergedOf
+  rw [processSideband_eq, processSideband_eq, mergeAll_get _ _ hsb, mergeAll_get _ _ hsb, resultsOf_os,
+    writes_perm_get mk _ ws [] hp hwn n]
+
 /-- **Link to C11.**  The one outcome a spawned batch records for case i is the verdict of the
 client's own answer when the case got one (`realAnswer`: no set-up fault of the server, handed to
 the client before the server died or a send was refused, answered by the client), and a set-up
@@ -673,6 +705,12 @@ example : (merged demoMarks (finalMap [⟨"a", .pass, .unmarked, false⟩]) []).
 
 example : (allScripts demoWorld).map (fun s => (classAt s 0, realAnswer s 0, classAt s 1, realAnswer s 1, answeredOK demoMarks s 1)) =
     [(some .pass, some .pass, some .fail, some .mismatch, true), (some .noresult, none, none, none, false)] := by decide
+
+/-- hypothesis of `interleaving_irrelevant`: a genuine reordering of the two `setOutcome` calls of the
+spawned batch of `demoWorld` -/
+example : ((sched demoWorld).1.flatMap writesOf).reverse.Perm ((sched demoWorld).1.flatMap writesOf) ∧
+    ((sched demoWorld).1.flatMap writesOf).reverse = [("b", .fail), ("a", .pass)] :=
+  ⟨List.reverse_perm _, by decide⟩
 
 /-- hypotheses of `early_stop_fails` -/
 example : (demoClient (some 2) .exit 0 true true).fate.answers = some 2 ∧
